@@ -71,6 +71,7 @@ main(int argc, char** argv)
   v_alloc_init(&va);
   va.logging = false;
   v_setup_io();
+  v_watchdog(60);
   static char* envp[] = {(char*)"A=value", (char*)"HOME=/home/u", (char*)"EMPTY=", NULL};
   while ((n = v_next(in, tok)) >= 0) {
     if (v_marker(n, tok)) continue;
